@@ -1,6 +1,8 @@
 (* Extract_uc.v -- extraction of the uc.c model and the RFC 3629 spec to OCaml (ExtrOcamlBasic only). *)
 From Coq Require Import List NArith ZArith Extraction ExtrOcamlBasic.
-From NV Require Import Bytes UcDefs UcSpec.
+From NV Require Import Bytes UcDefs UcSpec UcMemDefs.
+From NV Require RenDefs.
 Definition all_types : nat * N * Z := (0%nat, 0%N, 0%Z).
 Extraction "uc_model.ml" all_types uc_len uc_code uc_end uc_next uc_beg uc_prev uc_slen uc_chop uc_chr uc_off uc_sub
-  uc_cput uc_kind uc_isspace uc_isprint uc_isalpha uc_isdigit encode scalar_b chars.
+  uc_cput uc_kind uc_isspace uc_isprint uc_isalpha uc_isdigit encode scalar_b chars
+  uc_sub_t uc_cat uc_dup trim_idx uc_trim uc_lastline RenDefs.uc_iscomb.
